@@ -145,7 +145,7 @@ def mechanism(key, o, got, program=None):
 
     Predicate: the failure is a TypeError and some proper prefix of a looked-up path holds a
     non-container.  Neutralisation: with an empty section in place of every such scalar the same
-    real call no longer raises TypeError; otherwise the violation is something else and is not
+    real call agrees with the independent lookup again; otherwise the violation is something else and is not
     classified."""
     if not (got[0] == "err" and got[1] == "TypeError"):
         return None
@@ -169,8 +169,12 @@ def mechanism(key, o, got, program=None):
                 o2 = U.set_path(o2, pre, {})
         with labrea.cache.disabled():
             again = observe(build(program).root.evaluate, o2)
-        if again[0] == "err" and again[1] == "TypeError":
+        try:
+            exp2 = Ref(program).run(o2)
+        except RecursionError:
             return None
+        if again[0] != exp2[0] or again[1] != exp2[1]:
+            return None  # still disagrees with the independent lookup: not (only) this mechanism
     return "option-scalar-where-section-expected"
 
 
